@@ -39,6 +39,12 @@ func mechID(s Step) string {
 	return id
 }
 
+func hasHeader(o client.Obs, name string) bool {
+	_, ok := o.Headers[http.CanonicalHeaderKey(name)]
+
+	return ok
+}
+
 func ehID(s Step) string {
 	switch s.Type {
 	case "default":
@@ -51,6 +57,8 @@ func ehID(s Step) string {
 		res := "ok"
 		if len(s.Out) > 0 && s.Out[0] == "fail" {
 			res = "fail"
+		} else if s.EmptyTo {
+			res = "empty"
 		}
 
 		return fmt.Sprintf("eh_redir_%d_%s", s.Code, res)
@@ -175,6 +183,10 @@ func baseConfig(c Case, trusted []string) map[string]any {
 				map[string]any{
 					"id": alias(fmt.Sprintf("eh_redir_%d_fail", code), k), "type": "redirect",
 					"config": map[string]any{"to": `http://redirect.invalid/{{ fail "no" }}`, "code": code},
+				},
+				map[string]any{
+					"id": alias(fmt.Sprintf("eh_redir_%d_empty", code), k), "type": "redirect",
+					"config": map[string]any{"to": `{{ .Request.Header "X-V-Login-Url" }}`, "code": code},
 				})
 		}
 	}
@@ -252,6 +264,10 @@ func WWWMutator(conf *config.Configuration) *config.Configuration {
 				config.Mechanism{
 					ID: alias(fmt.Sprintf("eh_redir_%d_fail", code), k), Type: "redirect",
 					Config: config.MechanismConfig{"to": `http://redirect.invalid/{{ fail "no" }}`, "code": code},
+				},
+				config.Mechanism{
+					ID: alias(fmt.Sprintf("eh_redir_%d_empty", code), k), Type: "redirect",
+					Config: config.MechanismConfig{"to": `{{ .Request.Header "X-V-Login-Url" }}`, "code": code},
 				})
 		}
 	}
@@ -271,6 +287,7 @@ func overridesMutator(c Case, conf *config.Configuration) *config.Configuration 
 		w.ArgumentError.Code = c.Overrides["arg"]
 		w.NoRuleError.Code = c.Overrides["norule"]
 		w.InternalError.Code = c.Overrides["internal"]
+		w.Accepted.Code = c.Overrides["accepted"]
 	}
 
 	return conf
@@ -306,7 +323,12 @@ func StartBed(proto Case, up *client.Upstream, opts Options) (*Bed, error) {
 		return nil, err
 	}
 
-	return &Bed{App: a, Client: client.New(a, up), Rec: rec, Upstream: up, shapes: map[string]string{}}, nil
+	cl := client.New(a, up)
+	if code := proto.Overrides["accepted"]; code != 0 && proto.Entry == app.Decision {
+		cl.Accepted = code // what the decision service answers when it accepts
+	}
+
+	return &Bed{App: a, Client: cl, Rec: rec, Upstream: up, shapes: map[string]string{}}, nil
 }
 
 func (b *Bed) Stop() {
@@ -423,7 +445,7 @@ func (b *Bed) Exec(c *Case) error {
 		Hits:     len(o.Upstream),
 		Exec:     b.Rec.Take(c.ID),
 		Status:   o.Status,
-		Location: o.HeaderFirst("Location") != "",
+		Location: hasHeader(o, "Location"), // present, possibly empty
 		WWW:      wwwOK(*c, o.HeaderFirst("WWW-Authenticate")),
 		RPCErr:   o.RPCError,
 		Body:     o.Body != "",
